@@ -32,6 +32,7 @@ def dispatch (j : Json) : P Json := do
   | "lrc" => opLrc j
   | "crctable" => opCrcTable j
   | "async" => opAsync j
+  | "asyncnet" => opAsyncNet j
   | "sched" => opSched j
   | "txn" => opTxn j
   | "pyint16" => opPyInt j
